@@ -13,10 +13,14 @@ def declared(err):
     return any(c in DECLARED for c in err.get('mro', []))
 
 
-def undeclared_errors(res):
+def undeclared_errors(res, server=False):
+    """Undeclared exceptions seen at event boundaries (and, with server=True,
+    raised by EngineServer methods before the RPC client decorator wraps
+    them into MistralException)."""
     out = []
     seen = set()
-    for e in list(res.errors) + list(res.swallowed):
+    extra = list(getattr(res, 'server_errors', [])) if server else []
+    for e in list(res.errors) + list(res.swallowed) + extra:
         if declared(e):
             continue
         k = (e.get('type'), e.get('frame'), e.get('step'))
